@@ -334,3 +334,8 @@ def run(ck):
     ck.ob('C26.release', 'C26.release/unlink-before-close-or-relist', not late_dp, dp.loc(late_dp[0][0]) if late_dp and late_dp[0][0] is not None else dp.loc(),
           'detach_partner resets the survivor\'s partner link before it closes or re-registers it (otherwise the survivor\'s own teardown detaches back and '
           're-lists a session that is being closed)', late_dp[0][1] if late_dp else None)
+
+    # ---- `closing` means "close_session ran": nobody else sets or clears it (a deferred-close flag would turn the real close into a no-op) ------
+    cl_w = sorted({f.name for f in P.fns for i, m_, w_ in field_accesses(f) if w_ and m_.endswith('ClientSession::closing') and f.kind not in ('ctor', 'dtor')})
+    ck.ob('C26.own', 'C26.own/closing-flag', cl_w == ['relay::RelayServer::close_session'] or cl_w == ['RelayServer::close_session'] or (len(cl_w) == 1 and cl_w[0].endswith('close_session')), '',
+          'ClientSession::closing is written by close_session only (found writers: %s)' % cl_w)
